@@ -460,8 +460,13 @@ class NestedDictRAMDataStore(datastore.DataStore):
         ) from e
       # Nothing is written unless every named Trial exists.
       trial_metadata = list(trial_metadata)
-      for md in trial_metadata:
-        t_resource = s_resource.trial_resource(md.trial_id)
+      # (All trial ids are validated before any of them is looked up, as in
+      # the SQL datastore: an invalid id is a ValueError whatever else the
+      # request names.)
+      t_resources = [
+          s_resource.trial_resource(md.trial_id) for md in trial_metadata
+      ]
+      for t_resource in t_resources:
         if t_resource.trial_id not in study_node.trial_protos:
           raise custom_errors.NotFoundError('No such trial:', t_resource.name)
       # Store Study-related metadata into the database.
